@@ -12,6 +12,9 @@ CONSTANTS
  MaxBad = 10
  MaxRestore = 0
  MaxBadUnit = 0
+ DocNKeys = 1
+ DocShapes = {"p"}
+ DocMaxBatch = 1
  SimMode = TRUE
 INVARIANT PlainRefinement
 INVARIANT NoDupIds
